@@ -116,7 +116,7 @@ type knownFinding struct {
 }
 
 func loadKnown(prop string) []knownFinding {
-	f, err := os.Open(filepath.Join(VerifDir(), "known_findings.jsonl"))
+	f, err := os.Open(filepath.Join(VerifDir(), "known_findings.txt"))
 	if err != nil {
 		return nil
 	}
@@ -126,9 +126,12 @@ func loadKnown(prop string) []knownFinding {
 	sc.Buffer(make([]byte, 1<<20), 1<<24)
 	for sc.Scan() {
 		line := strings.TrimSpace(sc.Text())
-		if line == "" || strings.HasPrefix(line, "#") {
+		// lines are either "fixed: property=<id> <commit> <what failed>" (informational,
+		// suppresses nothing) or "known: {json}"
+		if !strings.HasPrefix(line, "known:") {
 			continue
 		}
+		line = strings.TrimSpace(strings.TrimPrefix(line, "known:"))
 		var k knownFinding
 		if json.Unmarshal([]byte(line), &k) == nil && k.Property == prop {
 			out = append(out, k)
